@@ -65,6 +65,29 @@ def gen_case(g):
         names = [rng.choice(["q0", "q1", "q2"])]
         dividend = small_poly(g, dshape, names, kind, nterms=rng.choice([2, 3, 4]), maxexp=5)
         divisor = small_poly(g, vshape, names, kind, nterms=rng.choice([1, 2, 3]), maxexp=3)
+        if kind == "float" and rng.random() < 0.3:
+            # one huge irreducible coefficient (the constant term, +-2**60) next to small
+            # integer-valued ones, divided by a single power c*q**k with c a power of two: every
+            # step is exact in floating point, so the small terms must be reduced exactly - a
+            # cutoff relative to the largest coefficient would drop them (seed C05-r13-1)
+            k = rng.choice([1, 1, 2])
+            divisor = small_poly(g, vshape, names, kind, nterms=1, maxexp=2)
+            divisor["exps"] = [[k]]
+            divisor["coefs"] = [G.nested_map(lambda v: G.jnum(rng.choice([1.0, 2.0, -1.0, 0.5])),
+                                             divisor["coefs"][0])]
+            rows = [list(r) for r in dividend["exps"]]
+            coefs = [G.nested_map(lambda v: G.jnum(float(rng.choice([1, 2, -3, 4]))), c)
+                     for c in dividend["coefs"]]
+            big = G.nested_map(lambda v: G.jnum(rng.choice([2.0 ** 60, -2.0 ** 60])), coefs[0])
+            if [0] in rows:
+                coefs[rows.index([0])] = big
+            else:
+                rows.append([0])
+                coefs.append(big)
+            dividend["exps"], dividend["coefs"] = rows, coefs
+            dividend.pop("view", None)
+            divisor.pop("view", None)
+            case["exact_fp"] = True
     elif cls == "constant":
         dividend = small_poly(g, dshape, names, kind, nterms=rng.choice([2, 3]), maxexp=3)
         if rng.random() < 0.5:
@@ -236,6 +259,9 @@ def run_case(case, ctx, monitor):
     recomposed = M.m_add(M.m_mul(qm, bb), rm)
     floor = 2.0 ** case.get("scale_pow", 0)
     scale = scale_of(ab, M.m_mul(qm, bb), rm, floor=floor)
+    if case.get("exact_fp"):
+        scale = floor  # every operation of this case is exact in binary floating point
+        ctx.count("exact_fp_cases")
     residual = M.m_sub(ab, recomposed)
     if any(e for e in residual.ravel().tolist()) and max(
             e.max_abs() for e in residual.ravel().tolist()) > 1e-9 * scale:
